@@ -44,12 +44,16 @@ MUT = [
  ('m28-serialize-entry-b-returns-empty', S + 'serialize_archive.h', 'igris::serializer<string_storage, Protocol> archive(storage);\n        archive.serialize(obj);\n        return storage.storage();', 'string_storage copy = storage;\n        igris::serializer<string_storage, Protocol> archive(copy);\n        archive.serialize(obj);\n        return storage.storage();'),
  ('m29-vector-writer-count-is-capacity', S + 'stdtypes.h', 'igris::serialize(keeper, (uint16_t)vec.size());', 'igris::serialize(keeper, (uint16_t)vec.capacity());'),
  ('m30-storage-ctor-cursor-one', S + 'serialize_storage.h', 'size_t cursor = 0;', 'size_t cursor = 1;'),
- ('m31-long-double-image-not-zeroed', S + 'archive.h', 'char image[sizeof(i)] = {};', 'char image[sizeof(i)];'),
- ('m32-protocol-long-double-copies-whole-object', S + 'serialize_protocol.h', 'memcpy(image, &obj, 10);', 'memcpy(image, &obj, sizeof(image));'),
+ ('m31-dump-buffer-address-of-object', S + 'archive.h', 'dump((uint16_t)buf.size());\n                dump_data(buf.data(), buf.size());\n            }\n\n#if', 'dump((uint16_t)buf.size());\n                dump_data((const char *)&buf, buf.size());\n            }\n\n#if'),
+ ('m32-protocol-dump-from-uninitialised-copy', S + 'serialize_protocol.h', 'archive.dump(reinterpret_cast<const char *>(&obj), sizeof(Type));', 'Type copy;\n            if (sizeof(Type) > 16)\n                copy = obj;\n            archive.dump(reinterpret_cast<const char *>(&copy), sizeof(Type));'),
  ('m33-vector-reader-no-increment', S + 'stdtypes.h', 'for (int i = 0; i < size; i++)\n            {\n                T value;', 'for (int i = 0; i < size;)\n            {\n                T value;'),
  ('m34-dump-buffer-one-byte-too-many', S + 'archive.h', 'dump((uint16_t)buf.size());\n                dump_data(buf.data(), buf.size());\n            }\n\n#if', 'dump((uint16_t)buf.size());\n                dump_data(buf.data(), buf.size() + 1);\n            }\n\n#if'),
  ('m35-map-reader-inserts-key-only', S + 'stdtypes.h', 'map.insert(std::make_pair(first, second));', 'map.insert(std::make_pair(first, T()));'),
  ('m36-load-writable-buffer-reads-len-bytes', S + 'archive.h', 'load_data((char *)buf.data(), readsize);', 'load_data((char *)buf.data(), len);'),
+ ('m37-reserved-field-not-initialised', S + 'archive.h',
+  ['void dump(int i) { dump_data((char *)&i, sizeof(i)); }', 'void load(int32_t &i) { load_data((char *)&i, sizeof(i)); }'],
+  ['void dump(int i)\n            {\n                int reserved;\n                dump_data((char *)&i, sizeof(i));\n                dump_data((char *)&reserved, sizeof(reserved));\n            }',
+   'void load(int32_t &i)\n            {\n                load_data((char *)&i, sizeof(i));\n                skip(4);\n            }']),
 ]
 def main():
     pat = sys.argv[1] if len(sys.argv) > 1 else ''
@@ -59,10 +63,14 @@ def main():
             continue
         p = os.path.join(WT, rel)
         src = open(p).read()
-        if src.count(old) != 1:
-            print('%s: anchor text found %d times - mutation not applied' % (name, src.count(old)))
+        olds, news = (old, new) if isinstance(old, list) else ([old], [new])
+        if any(src.count(o) != 1 for o in olds):
+            print('%s: anchor text found %s times - mutation not applied' % (name, [src.count(o) for o in olds]))
             continue
-        open(p, 'w').write(src.replace(old, new))
+        mut = src
+        for o, n_ in zip(olds, news):
+            mut = mut.replace(o, n_)
+        open(p, 'w').write(mut)
         try:
             r = subprocess.run([sys.executable, DRV, '--fails', '--repo', WT], capture_output=True, text=True)
         finally:
